@@ -175,6 +175,8 @@ fn budget(prop: &str, tier: &str, seed: u64, scale: f64) -> Budget {
             sweeps.push(sweeps::c05_eci_charset_bytes());
             sweeps.push(sweeps::c05_long_streams());
             sweeps.push(sweeps::c05_c40_value_sequences());
+            sweeps.push(sweeps::c05_charset_sections());
+            sweeps.push(sweeps::structured_data_fills("C05"));
             if checked || !quick {
                 sweeps.push(sweeps::c05_huge_positions());
             }
@@ -191,6 +193,8 @@ fn budget(prop: &str, tier: &str, seed: u64, scale: f64) -> Budget {
             sweeps.push(sweeps::c08_track_faults(seed));
             sweeps.push(sweeps::c08_periodic_fixed_faults(seed));
             sweeps.push(sweeps::c08_track_combinations(seed));
+            sweeps.push(sweeps::c08_small_structure_subsets(seed));
+            sweeps.push(sweeps::structured_data_fills("C08"));
             sweeps.push(sweeps::dimension_aliases("C08", seed));
         }
         _ => {
